@@ -1,4 +1,5 @@
 import Proofs.FloorLog10
+import Proofs.FloatBin
 /-!
 Floats in scientific notation: `round(x, nd)` for `nd` of either sign, `float()` of
 `[-]d[.ddd]e±XX`, towards the render / parse law of E-notation fields.
@@ -595,11 +596,11 @@ set_option exponentiation.threshold 5000
 /-- normal doubles of moderate magnitude: `2^52 ≤ m < 2^53`, `-1000 ≤ e ≤ 960` -/
 def wfn (m : Nat) (e : Int) : Prop := 2 ^ 52 ≤ m ∧ m < 2 ^ 53 ∧ -1000 ≤ e ∧ e ≤ 960
 
-theorem pow_facts : (2 : Nat) ^ 948 ≤ 10 ^ 286 ∧ (2 : Nat) ^ 1024 ≤ 10 ^ 309 ∧ 20 * 10 ^ 12 ≤ (2 : Nat) ^ 53 := by
+theorem pow_facts : (2 : Nat) ^ 948 ≤ 10 ^ 286 ∧ (2 : Nat) ^ 1013 ≤ 10 ^ 305 ∧ 20 * 10 ^ 12 ≤ (2 : Nat) ^ 53 := by
   refine ⟨by decide +kernel, by decide +kernel, by decide +kernel⟩
 
-/-- the decimal exponent of a normal double lies between -286 and 308 -/
-theorem kbounds (m : Nat) (e : Int) (h : wfn m e) : -286 ≤ floorLog10 m e ∧ floorLog10 m e ≤ 308 := by
+/-- the decimal exponent of a normal double below `2^1013` lies between -286 and 304 -/
+theorem kbounds (m : Nat) (e : Int) (h : wfn m e) : -286 ≤ floorLog10 m e ∧ floorLog10 m e ≤ 304 := by
   obtain ⟨h1, h2, h3, h4⟩ := h
   have hm0 : m ≠ 0 := by
     intro h0; subst h0
@@ -628,22 +629,21 @@ theorem kbounds (m : Nat) (e : Int) (h : wfn m e) : -286 ≤ floorLog10 m e ∧ 
     exact GE_mono_le _ _ _ _ hge
   · apply Classical.byContradiction
     intro hgt
-    have hge : GE (2 ^ (-(-1074 : Int)).toNat) (units (-1074) m e) 309 := by
-      have : floorLog10 m e = 309 + ((floorLog10 m e - 309).toNat : Int) := by omega
+    have hge : GE (2 ^ (-(-1074 : Int)).toNat) (units (-1074) m e) 305 := by
+      have : floorLog10 m e = 305 + ((floorLog10 m e - 305).toNat : Int) := by omega
       rw [this] at s1
       exact GE_mono_le _ _ _ _ s1
     unfold GE at hge
-    have z1 : ((309 : Int)).toNat = 309 := by decide
-    have z2 : (-(309 : Int)).toNat = 0 := by decide
+    have z1 : ((305 : Int)).toNat = 305 := by decide
+    have z2 : (-(305 : Int)).toNat = 0 := by decide
     rw [z1, z2, Nat.pow_zero, Nat.mul_one, eU] at hge
     unfold units at hge
     have hE : (e - (-1074)).toNat ≤ 2034 := by omega
     have a1 : m * 2 ^ (e - (-1074)).toNat < 2 ^ 53 * 2 ^ 2034 :=
       Nat.lt_of_lt_of_le (Nat.mul_lt_mul_of_pos_right h2 (two_pow_pos _))
         (Nat.mul_le_mul_left _ (Nat.pow_le_pow_right (by decide) hE))
-    have a2 : (2 : Nat) ^ 53 * 2 ^ 2034 ≤ 2 ^ 1074 * 2 ^ 1024 := by
-      rw [← Nat.pow_add, ← Nat.pow_add]; exact Nat.pow_le_pow_right (by decide) (by decide)
-    have a3 : (2 : Nat) ^ 1074 * 2 ^ 1024 ≤ 2 ^ 1074 * 10 ^ 309 := Nat.mul_le_mul_left _ pow_facts.2.1
+    have a2 : (2 : Nat) ^ 53 * 2 ^ 2034 ≤ 2 ^ 1074 * 2 ^ 1013 := by decide +kernel
+    have a3 : (2 : Nat) ^ 1074 * 2 ^ 1013 ≤ 2 ^ 1074 * 10 ^ 305 := Nat.mul_le_mul_left _ pow_facts.2.1
     omega
 
 /-- the half-ulp bound on the common scale -/
@@ -686,5 +686,263 @@ theorem halfulp_scaled (prec : Nat) (emin emaxE : Int) (n : Nat) (nd : Int) (m' 
     rw [e3, ← absdiff_mul, e1] at h3
     exact h3
 
+/-! ### The scientific-notation pipeline -/
+
+
+/-- the pair (digits, exponent) `'{:.{d}e}'.format` prints for a non-zero double -/
+def sci (m : Nat) (e : Int) (d : Nat) : Nat × Int :=
+  let k := floorLog10 m e
+  let n := roundScaled m e ((d : Int) - k)
+  if n == 10 ^ (d + 1) then (10 ^ d, k + 1) else (n, k)
+
+abbrev nd53 := nearestDec 53 (-1074) 971
+
+/-- facts about the rounded value needed downstream -/
+structure RoundedOk (m' : Nat) (e' : Int) : Prop where
+  hm0 : m' ≠ 0
+  hm : m' < 2 ^ 53
+  he1 : -1074 ≤ e'
+  he2 : e' ≤ 971
+
+/-- **The scientific-notation pipeline is a projection.** `x` a normal double, `k` its decimal
+exponent, `r = round(x, d − k)`. Then the pair `(N, K)` printed for `r` has `d + 1` digits,
+reading the printed decimal `N·10^(K−d)` gives `r` back, and rounding `r` at its own decimal
+exponent gives `r` again. -/
+theorem sci_core (m : Nat) (e : Int) (h : wfn m e) (d : Nat) (hd : d ≤ 12) (m' : Nat) (e' : Int)
+    (hr : nd53 (roundScaled m e ((d : Int) - floorLog10 m e)) ((d : Int) - floorLog10 m e) = some (m', e')) :
+    RoundedOk m' e' ∧
+    10 ^ d ≤ (sci m' e' d).1 ∧ (sci m' e' d).1 < 10 ^ (d + 1) ∧
+    -300 ≤ (sci m' e' d).2 ∧ (sci m' e' d).2 ≤ 320 ∧
+    nd53 (sci m' e' d).1 ((d : Int) - (sci m' e' d).2) = some (m', e') ∧
+    nd53 (roundScaled m' e' ((d : Int) - floorLog10 m' e')) ((d : Int) - floorLog10 m' e') = some (m', e') ∧
+    floorLog10 m e - 1 ≤ floorLog10 m' e' ∧ floorLog10 m' e' ≤ floorLog10 m e + 1 := by
+  obtain ⟨hm52, hm53, he1, he2⟩ := h
+  have hwf : wfn m e := ⟨hm52, hm53, he1, he2⟩
+  have hm0 : m ≠ 0 := by
+    intro h0; subst h0
+    have := two_pow_pos 52; omega
+  obtain ⟨hk1, hk2⟩ := kbounds m e hwf
+  obtain ⟨s1, s2⟩ := floorLog10_spec m e hm0 hm53 (by omega) (by omega)
+  generalize hk : floorLog10 m e = k at *
+  -- the rounded value is a number of the format
+  have hnorm : m' < 2 ^ 53 ∧ -1074 ≤ e' ∧ e' ≤ 971 ∧
+      (roundScaled m e ((d : Int) - k) ≠ 0 → 2 ^ 52 ≤ m' ∨ e' = -1074) := by
+    unfold nd53 nearestDec at hr
+    split at hr
+    · obtain ⟨a, b, c, h4⟩ := Proofs.FloatBin.nearestG_norm 53 (-1074) 971 _ _ m' e' (by decide) (by decide) (by decide)
+        (ten_pow_pos _) hr
+      exact ⟨a, b, c, h4⟩
+    · obtain ⟨a, b, c, h4⟩ := Proofs.FloatBin.nearestG_norm 53 (-1074) 971 _ 1 m' e' (by decide) (by decide) (by decide)
+        (by decide) hr
+      refine ⟨a, b, c, fun hne => h4 ?_⟩
+      exact Nat.mul_ne_zero hne (Nat.ne_of_gt (ten_pow_pos _))
+  obtain ⟨hm', he1', he2', hnz⟩ := hnorm
+  have hXbig : 2 ^ 126 ≤ units (-1074) m e := by
+    show 2 ^ 126 ≤ m * 2 ^ (e - (-1074)).toNat
+    have h74 : 2 ^ 74 ≤ 2 ^ (e - (-1074)).toNat := Nat.pow_le_pow_right (by decide) (by omega)
+    calc 2 ^ 126 = 2 ^ 52 * 2 ^ 74 := by decide +kernel
+      _ ≤ m * 2 ^ (e - (-1074)).toNat := Nat.mul_le_mul hm52 h74
+  have hYsub : e' = -1074 → units (-1074) m' e' = m' := by
+    intro h; subst h; simp [units]
+  -- everything on the common scale
+  have hX : units (-1074) m e = m * 2 ^ (e - (-1074)).toNat := rfl
+  obtain ⟨_, hopt⟩ := opt_scaled 53 (-1074) 971 _ ((d : Int) - k) m' e' (by decide) (by decide) (by omega) (by omega) hr
+  have hoptx := hopt m (e - (-1074)).toNat hm53
+  rw [← hX] at hoptx
+  have hulp := halfulp_scaled 53 (-1074) 971 _ ((d : Int) - k) m' e' (by decide) (by decide) (by omega) (by omega) hr
+  have hn0 := roundScaled_scaled m e ((d : Int) - k) (by omega) (by omega) (by omega)
+  have eneg : -((d : Int) - k) = k - d := by omega
+  rw [eneg] at hoptx hulp hn0
+  have hs1 := (GE_scaled _ _ k (by omega) (by omega)).1 s1
+  have hs2 : ¬ (2 ^ (-(-1074 : Int)).toNat * T (k + 1) ≤ units (-1074) m e * 10 ^ 400) :=
+    fun hc => s2 ((GE_scaled _ _ (k + 1) (by omega) (by omega)).2 hc)
+  have hTk : T k = T (k - d) * 10 ^ d := by
+    have := T_add (k - d) d (by omega)
+    have e1 : k - (d : Int) + (d : Int) = k := by omega
+    rw [e1] at this; exact this
+  have hTk1 : T (k + 1) = 10 * T k := T_succ k (by omega)
+  have hTk2 : T (k + 1 + 1) = 10 * T (k + 1) := T_succ (k + 1) (by omega)
+  have hTkd : T (k - d) = 10 * T (k - d - 1) := by
+    have := T_succ (k - d - 1) (by omega)
+    have e1 : k - (d : Int) - 1 + 1 = k - d := by omega
+    rw [e1] at this; exact this
+  have hTkd1 : T (k + 1 - d) = 10 * T (k - d) := by
+    have := T_succ (k - d) (by omega)
+    have e1 : k - (d : Int) + 1 = k + 1 - d := by omega
+    rw [e1] at this; exact this
+  have hTkm1 : T (k - 1) = T (k - d - 1) * 10 ^ d := by
+    have := T_add (k - d - 1) d (by omega)
+    have e1 : k - (d : Int) - 1 + (d : Int) = k - 1 := by omega
+    rw [e1] at this; exact this
+  have hTkm : T k = 10 * T (k - 1) := by
+    have := T_succ (k - 1) (by omega)
+    have e1 : k - 1 + 1 = k := by omega
+    rw [e1] at this; exact this
+  -- facts about Y
+  have hY0 : ∀ {j : Int}, 0 < 2 ^ (-(-1074 : Int)).toNat * T j := fun {j} => Nat.mul_pos (two_pow_pos _) (T_pos j)
+  generalize hU : 2 ^ (-(-1074 : Int)).toNat = U at *
+  generalize hXu : units (-1074) m e = X at *
+  generalize hYu : units (-1074) m' e' = Y at *
+  generalize hS : (10 : Nat) ^ 400 = S at *
+  generalize hn0v : roundScaled m e ((d : Int) - k) = n0 at *
+  have hG : 0 < 10 ^ d := ten_pow_pos d
+  generalize hGd : 10 ^ d = G at *
+  have hB : 0 < U * T (k - d) := hY0
+  -- the decade of x
+  have h1 : G * (U * T (k - d)) ≤ X * S := by
+    have : U * T k = G * (U * T (k - d)) := by rw [hTk]; grind
+    omega
+  have h2 : X * S < 10 * G * (U * T (k - d)) := by
+    have : U * T (k + 1) = 10 * G * (U * T (k - d)) := by rw [hTk1, hTk]; grind
+    omega
+  -- digits of x
+  obtain ⟨f1, f2, f3⟩ := digits_range (X * S) (U * T (k - d)) G hB h1 h2
+  rw [← hn0] at f1 f2 f3
+  -- helper: the decimal exponent of r from its position
+  have hexp : ∀ j : Int, -400 ≤ j → j + 1 ≤ 400 → m' ≠ 0 → U * T j ≤ Y * S → Y * S < U * T (j + 1) →
+      floorLog10 m' e' = j := by
+    intro j hj1 hj2 hm0' ha hb
+    apply floorLog10_eq m' e' hm0' hm' he1' he2' j
+    · rw [hU, hYu]
+      apply (GE_scaled U Y j hj1 (by omega)).2
+      rw [hS]; exact ha
+    · rw [hU, hYu]
+      intro hc
+      have := (GE_scaled U Y (j + 1) (by omega) hj2).1 hc
+      rw [hS] at this
+      omega
+  have hYpos : 0 < Y * S → m' ≠ 0 := by
+    intro hp h0
+    subst h0
+    simp [units] at hYu
+    subst hYu
+    simp at hp
+  have hrs : ∀ j : Int, -400 ≤ j - d → j - d ≤ 400 →
+      roundScaled m' e' ((d : Int) - j) = divHE (Y * S) (U * T (j - d)) := by
+    intro j hj1 hj2
+    have := roundScaled_scaled m' e' ((d : Int) - j) he1' (by omega) (by omega)
+    have e1 : -((d : Int) - j) = j - d := by omega
+    rw [e1, hU, hYu, hS] at this
+    exact this
+  have hG10 : G * 10 = 10 ^ (d + 1) := by rw [← hGd, Nat.pow_succ]
+  by_cases hya : G * (U * T (k - d)) ≤ Y * S
+  · by_cases hyb : Y * S < 10 * G * (U * T (k - d))
+    · -- (a) inside the decade
+      have hm0' := hYpos (Nat.lt_of_lt_of_le (Nat.mul_pos hG hB) hya)
+      have hk' : floorLog10 m' e' = k := by
+        apply hexp k (by omega) (by omega) hm0'
+        · have : U * T k = G * (U * T (k - d)) := by rw [hTk]; grind
+          omega
+        · have : U * T (k + 1) = 10 * G * (U * T (k - d)) := by rw [hTk1, hTk]; grind
+          omega
+      have hn1 : roundScaled m' e' ((d : Int) - k) = n0 := by
+        rw [hrs k (by omega) (by omega)]
+        rw [hn0]; exact pos_inside (X * S) (Y * S) (U * T (k - d)) hB (by rw [← hn0]; exact hoptx)
+      refine ⟨⟨hm0', hm', he1', he2'⟩, ?_⟩
+      unfold sci
+      simp only [hk', hn1]
+      by_cases hc : n0 = 10 ^ (d + 1)
+      · have hc' : (n0 == 10 ^ (d + 1)) = true := by simpa using hc
+        simp only [hc', if_true]
+        refine ⟨Nat.le_of_eq hGd.symm, by rw [← hG10, hGd]; omega, by omega, by omega, ?_, ?_⟩
+        · have := nearestDec_shift 53 (-1074) 971 (10 ^ d) ((d : Int) - (k + 1))
+          have e1 : (d : Int) - (k + 1) + 1 = d - k := by omega
+          rw [e1, hGd, hG10] at this
+          unfold nd53
+          rw [hGd, ← this, ← hc]; exact hr
+        · unfold nd53 at hr ⊢; exact ⟨hr, by omega, by omega⟩
+      · have hc' : (n0 == 10 ^ (d + 1)) = false := by simpa using hc
+        simp only [hc', Bool.false_eq_true, if_false]
+        refine ⟨f1, by rw [← hG10]; omega, by omega, by omega, hr, hr, by omega, by omega⟩
+    · -- (b) r is the next power of ten or above
+      have hyb' : 10 * G * (U * T (k - d)) ≤ Y * S := by omega
+      obtain ⟨g1, g2, g3⟩ := pos_above (X * S) (Y * S) (U * T (k - d)) G hB h1 h2
+        (by rw [← hn0]; exact hoptx) hyb'
+      rw [← hn0] at g1
+      have hm0' := hYpos (Nat.lt_of_lt_of_le (Nat.mul_pos hG hB) hya)
+      have hk' : floorLog10 m' e' = k + 1 := by
+        apply hexp (k + 1) (by omega) (by omega) hm0'
+        · have : U * T (k + 1) = 10 * G * (U * T (k - d)) := by rw [hTk1, hTk]; grind
+          omega
+        · have : U * T (k + 1 + 1) = 100 * G * (U * T (k - d)) := by rw [hTk2, hTk1, hTk]; grind
+          omega
+      have hn1 : roundScaled m' e' ((d : Int) - (k + 1)) = G := by
+        rw [hrs (k + 1) (by omega) (by omega), hTkd1]
+        have : U * (10 * T (k - d)) = 10 * (U * T (k - d)) := by grind
+        rw [this]; exact g2
+      refine ⟨⟨hm0', hm', he1', he2'⟩, ?_⟩
+      unfold sci
+      simp only [hk', hn1]
+      have hc' : (G == 10 ^ (d + 1)) = false := by
+        have : G ≠ 10 ^ (d + 1) := by rw [← hG10]; omega
+        simpa using this
+      simp only [hc', Bool.false_eq_true, if_false]
+      have hsh := nearestDec_shift 53 (-1074) 971 G ((d : Int) - (k + 1))
+      have e1 : (d : Int) - (k + 1) + 1 = d - k := by omega
+      rw [e1] at hsh
+      have hr' : nd53 G ((d : Int) - (k + 1)) = some (m', e') := by
+        unfold nd53; rw [← hsh]
+        have : G * 10 = n0 := by omega
+        rw [this]; exact hr
+      exact ⟨Nat.le_refl _, by rw [← hG10]; omega, by omega, by omega, hr', hr', by omega, by omega⟩
+  · -- (c) r fell below the decade of x
+    have hyc : Y * S < G * (U * T (k - d)) := by omega
+    have hBB : U * T (k - d) = 10 * (U * T (k - d - 1)) := by rw [hTkd]; grind
+    have hB' : 0 < U * T (k - d - 1) := hY0
+    have hn0pos : n0 ≠ 0 := by omega
+    have hS0 : 0 < S := by rw [← hS]; exact ten_pow_pos _
+    have hm52' : 2 ^ 52 ≤ m' := by
+      rcases hnz hn0pos with h | h
+      · exact h
+      · exfalso
+        have hY : Y = m' := hYsub h
+        have a1 : G * (U * T (k - d)) ≤ n0 * (U * T (k - d)) := Nat.mul_le_mul_right _ f1
+        have a2 : U * T (k - d) ≤ G * (U * T (k - d)) := Nat.le_mul_of_pos_left _ hG
+        have a3 : X * S < 20 * Y * S := by
+          unfold absdiff at hoptx f3
+          have : 20 * Y * S = 20 * (Y * S) := by grind
+          omega
+        have a4 : X < 20 * Y := Nat.lt_of_mul_lt_mul_right a3
+        omega
+    rw [hBB] at h1 h2 hyc
+    have hoptx' := hoptx
+    have hulp' := hulp
+    rw [hn0, hBB] at hoptx' hulp'
+    have h5 : 20 * G ≤ 2 * m' := by
+      have := pow_facts.2.2
+      have : G ≤ 10 ^ 12 := by rw [← hGd]; exact Nat.pow_le_pow_right (by decide) hd
+      omega
+    obtain ⟨g1, g2, g3⟩ := pos_below (X * S) (Y * S) (U * T (k - d - 1)) G m' hB' hG h1 h2 hoptx' hyc hulp' h5
+    rw [← hBB, ← hn0] at g1
+    have hm0' : m' ≠ 0 := by have := two_pow_pos 52; omega
+    have hk' : floorLog10 m' e' = k - 1 := by
+      apply hexp (k - 1) (by omega) (by omega) hm0'
+      · have : U * T (k - 1) = G * (U * T (k - d - 1)) := by rw [hTkm1]; grind
+        omega
+      · have e1 : k - 1 + 1 = k := by omega
+        rw [e1]
+        have : U * T k = G * (10 * (U * T (k - d - 1))) := by rw [hTk, hTkd]; grind
+        omega
+    have hn1 : roundScaled m' e' ((d : Int) - (k - 1)) = 10 * G := by
+      rw [hrs (k - 1) (by omega) (by omega)]
+      have e1 : k - 1 - (d : Int) = k - d - 1 := by omega
+      rw [e1]; exact g2
+    refine ⟨⟨hm0', hm', he1', he2'⟩, ?_⟩
+    unfold sci
+    simp only [hk', hn1]
+    have hc' : (10 * G == 10 ^ (d + 1)) = true := by
+      have : 10 * G = 10 ^ (d + 1) := by rw [← hG10]; omega
+      simpa using this
+    simp only [hc', if_true]
+    have e1 : k - 1 + 1 = k := by omega
+    rw [e1]
+    have hr' : nd53 G ((d : Int) - k) = some (m', e') := by rw [← g1]; exact hr
+    refine ⟨Nat.le_of_eq hGd.symm, by rw [← hG10, hGd]; omega, by omega, by omega, by rw [hGd]; exact hr', ?_⟩
+    have hsh := nearestDec_shift 53 (-1074) 971 G ((d : Int) - k)
+    have e2 : (d : Int) - k + 1 = d - (k - 1) := by omega
+    rw [e2] at hsh
+    unfold nd53 at hr' ⊢
+    have : 10 * G = G * 10 := by omega
+    rw [this, hsh]; exact ⟨hr', by omega, by omega⟩
 
 end Proofs.FloatE
